@@ -134,7 +134,8 @@ BASE_KINDS = ["pure", "script",
               "em_leaves", "em_derived", "em_alias", "em_list", "em_dict", "em_nn", "em_call", "em_cplx"]
 SIB_BASES = ["pure", "nn_flat", "nn_nested", "nn_tied", "em_leaves", "em_derived", "em_alias", "em_list",
              "em_dict", "em_nn"]
-MULTI_KINDS = ["multi_em_em", "multi_em_nn", "multi_nn_em"]
+# multi_em2_em: the FIRST parent declares two names for one tensor
+MULTI_KINDS = ["multi_em_em", "multi_em_nn", "multi_nn_em", "multi_em2_em"]
 ALL_KINDS = BASE_KINDS + ["sib:" + b for b in SIB_BASES] + MULTI_KINDS
 
 
@@ -725,7 +726,21 @@ def build(kind, fname, extra, rg, probe, vals=None):
 
             def val(self):
                 return self.t
-        o1 = NNA(a) if base == "multi_nn_em" else EMA(a)
+        class EMA2(EditableModule):
+            """two declared names for ONE tensor"""
+
+            def __init__(self, t):
+                self.t = t
+                self.tt = t
+
+            def sq(self):
+                return self.t * self.tt
+
+            def getparamnames(self, methodname, prefix=""):
+                if methodname == "sq":
+                    return [prefix + "t", prefix + "tt"]
+                raise KeyError(methodname)
+        o1 = NNA(a) if base == "multi_nn_em" else (EMA2(a) if base == "multi_em2_em" else EMA(a))
         o2 = NNA(b) if base == "multi_em_nn" else EMA(b)
 
         @make_sibling(o1.sq, o2.val)
@@ -741,6 +756,8 @@ def build(kind, fname, extra, rg, probe, vals=None):
         rep.fcn, rep.params, rep.logp = fn, (p,) + s_tuple, logp
         rep.holders = [o1, o2]
         rep.slots = [(o1, "t", 0), (o2, "t", 1)]
+        if base == "multi_em2_em":
+            rep.slots = [(o1, "t", 0), (o1, "tt", 0), (o2, "t", 1)]
         rep.nobj = 2
     else:
         raise ValueError(kind)
